@@ -154,7 +154,49 @@ def _sig_period_escape(case: dict, f: Failure) -> bool:
     twice = opts.fmt(once, o)
     import re
 
-    return once != twice and re.sub(r"(\d)\\\.", r"\1.", once) == re.sub(r"(\d)\\\.", r"\1.", twice)
+    def norm(t: str) -> str:
+        # (next to a tag line the unescaped "1. x" is also taken for block content and set off by a blank line)
+        return "\n".join(l for l in re.sub(r"(\d)\\\.", r"\1.", t).split("\n") if l.strip(" >"))
+
+    return once != twice and norm(once) == norm(twice) and len(re.findall(r"\d\\\.", once)) > len(re.findall(r"\d\\\.", twice))
+
+
+def _sig_list_under_pipe_line(case: dict, f: Failure) -> bool:
+    """A paragraph whose last output line has a pipe is directly followed (no blank line in the source either) by a list item
+    line: Marko's table parser accepts any cell that starts with dashes as a delimiter cell, so the second run reads
+    "text |<NL>- item" as a one-column table and writes the item as dashes."""
+    import re
+
+    if case.get("kind", "md") != "md" or not f.bucket.startswith("not-idempotent"):
+        return False
+    o = dict(case["opts"])
+    once = opts.fmt(case["text"], o)
+    twice = opts.fmt(once, o)
+    return once != twice and re.search(r"\|[^\n]*\n[ >]*-[ \t]", once) is not None and re.search(r"^[ >]*\|( :?-+:? \|)+$", twice, re.M) is not None
+
+
+def _sig_table_first_in_item(case: dict, f: Failure) -> bool:
+    """The first run writes a table as the FIRST block of a list item ("- | a |<NL>  | --- |"), which Marko does not read
+    as a table (it only finds the delimiter row when it is another item's marker line, "- | a |<NL>- -"): the second run
+    sees a paragraph."""
+    import re
+
+    if case.get("kind", "md") != "md" or not f.bucket.startswith("not-idempotent"):
+        return False
+    o = dict(case["opts"])
+    once = opts.fmt(case["text"], o)
+    return re.search(r"^[ >]*(?:[-*+]|\d+[.)])[ \t]+\|.*\|\n[ >]+\|( :?-+:? \|)+$", once, re.M) is not None
+
+
+def _sig_def_label_lone_backslash(case: dict, f: Failure) -> bool:
+    """A one-line paragraph "[a]:\\" (label, colon, lone backslash) that Marko reads as a paragraph when a list follows
+    directly and as a definition with destination "\\" once a blank line follows."""
+    import re
+
+    if case.get("kind", "md") != "md" or not f.bucket.startswith("not-idempotent"):
+        return False
+    once = opts.fmt(case["text"], dict(case["opts"]))
+    return re.search(r"^[ >]*\[[^\]\n]+\]:[ \t]*\\$", once, re.M) is not None
 
 
 def _sig_tight_list_flips(case: dict, f: Failure) -> bool:
@@ -240,10 +282,13 @@ def _sig_ellipsis_before_escape(case: dict, f: Failure) -> bool:
     once = opts.fmt(case["text"], o)
     o2 = dict(o, ellipses=False)
     once2 = opts.fmt(case["text"], o2)
-    return re.search(r"\.\.\.[^\s\w]*[ \t]*\\", once) is not None and opts.fmt(once2, o2) == once2
+    return re.search(r"\.\.\.[^\s\w]*[ \t]*(?:\n[ \t>]*)?\\|\\[^\w\s][ \t]*(?:\n[ \t>]*)?\.\.\.", once) is not None and opts.fmt(once2, o2) == once2
 
 
 SIGS = {
+    "def_label_with_lone_backslash": _sig_def_label_lone_backslash,
+    "table_first_block_of_list_item": _sig_table_first_in_item,
+    "list_directly_under_pipe_line": _sig_list_under_pipe_line,
     "ellipsis_before_escape": _sig_ellipsis_before_escape,
     "hardbreak_in_setext_heading": _sig_hardbreak_in_setext,
     "blank_lines_settle_on_second_run": _sig_blank_lines_settle,
